@@ -11,6 +11,8 @@
 (*                            discovery answers (self.interfaces keeps it)                                *)
 (*  Dev_ShutdownLost          a shutdown request was made and returned, the node goes on serving          *)
 (*  Dev_RestartLost           an accepted restart request never leads to a new generation (flag latched)  *)
+(*                            (both only where a request met a node that was starting, or after another   *)
+(*                            deviation - a request made while the node simply serves is never excused)   *)
 (*  Dev_RequestRaises_<Exc>   restart() / shutdown() raise (AttributeError before self.interfaces exists, *)
 (*                            RuntimeError when an interface registers while the dictionary is iterated)   *)
 (*  Dev_Revived               restart() after shutdown() returned starts a new generation                  *)
@@ -49,20 +51,20 @@ Dev_InterruptedStartup(s, e) == {Dev([s EXCEPT !.run = "exc", !.aborted = TRUE],
 
 (* which deviation explains a rejected event - none: the rejection stands *)
 DevFor(s, e, why) ==
-  CASE why = "G4.run() returns leaving modules running" /\ s.ph = "noif" -> Dev_ModulesLeftRunning(s, e)
-    [] why = "S1.serving loop entered after a stop request returned" -> Dev_ServesAfterStop(s, e)
-    [] why = "G2._interfaces is not the set of listening interfaces" /\ Listening(s) \subseteq ToSet(e.ann)
+  CASE why = "G4.returns leaving modules running" /\ s.ph = "noif" -> Dev_ModulesLeftRunning(s, e)
+    [] why = "S1.serves after a stop returned" -> Dev_ServesAfterStop(s, e)
+    [] why = "G2._interfaces is not what listens" /\ Listening(s) \subseteq ToSet(e.ann)
               /\ (s.stopDone \/ s.ishReq # {}) -> Dev_StaleAnnounce(s, e)
-    [] why = "G2.announced a port that does not listen" /\ (s.stopDone \/ s.ishReq # {}) -> Dev_StaleAnnounce(s, e)
-    [] why = "S2.shutdown requested but run() did not return" -> Dev_ShutdownLost(s, e)
-    [] why = "R2.accepted restart request never led to a new generation" -> Dev_RestartLost(s, e)
+    [] why = "G2.announced a dead port" /\ (s.stopDone \/ s.ishReq # {}) -> Dev_StaleAnnounce(s, e)
+    [] why = "S2.shutdown lost, run() goes on" /\ (s.early \/ s.devs # {}) -> Dev_ShutdownLost(s, e)
+    [] why = "R2.accepted restart never happened" /\ (s.early \/ s.devs # {}) -> Dev_RestartLost(s, e)
     [] why = "E1.request raises" -> Dev_RequestRaises(s, e)
-    [] why = "S1.generation after shutdown() returned" /\ (s.gen = 0 \/ s.ph = "hooked") /\ s.disc # "open"
+    [] why = "S1.generation after shutdown()" /\ (s.gen = 0 \/ s.ph = "hooked") /\ s.disc # "open"
          -> Dev_Revived(s, e)
     [] why = "S1.hook after shutdown() returned" -> Dev_Revived(s, e)
-    [] why = "G5.responder of the previous generation still open" -> Dev_ResponderLeak(s, e)
-    [] why = "S2.discovery responder left after the end" -> Dev_ResponderLeak(s, e)
-    [] why = "G5.boot before the previous generation is down" /\ s.ph = "stopped" /\ AllMods(s, "down")
+    [] why = "G5.old responder still open" -> Dev_ResponderLeak(s, e)
+    [] why = "S2.responder left after the end" -> Dev_ResponderLeak(s, e)
+    [] why = "G5.boot before previous is down" /\ s.ph = "stopped" /\ AllMods(s, "down")
               /\ s.hooks = 0 /\ RestartWanted(s) -> Dev_NoHook(s, e)
     [] why = "exc.run() raises" /\ e.exc \in {"KeyboardInterrupt", "RuntimeError", "AttributeError"}
               /\ (\E x \in s.reqGen : x[1] = "sig") /\ s.ph \in {"init", "boot", "ready"}
@@ -81,7 +83,17 @@ TSpec == TInit /\ [][TNext]_<<t, l, st>>
 
 Track == IF l > 0 THEN TLCSet(t, IF l > TLCGet(t) THEN l ELSE TLCGet(t))
          ELSE (IF 0 - l >= TLCGet(t) THEN TLCSet(NT + t, st.rej) ELSE TRUE)
-Done == (l = Len(Traces[t]) + 1) => PrintT(<<"DEVS", t, ToJson(st.devs)>>)
+(* the deviations an accepted trace needed, as a bit mask over DevNames (a long line would be wrapped by TLC) *)
+DevNames == <<"Dev_ModulesLeftRunning", "Dev_ServesAfterStop", "Dev_StaleAnnounce", "Dev_ShutdownLost", "Dev_RestartLost",
+              "Dev_RequestRaises_AttributeError", "Dev_RequestRaises_RuntimeError", "Dev_Revived", "Dev_ResponderLeak",
+              "Dev_NoHook", "Dev_InterruptedStartup", "Dev_RequestRaises_other">>
+RECURSIVE Pow2(_)
+Pow2(n) == IF n = 0 THEN 1 ELSE 2 * Pow2(n - 1)
+Known(d) == \E k \in 1 .. Len(DevNames) - 1 : DevNames[k] = d
+Mask(ds) == LET has(k) == IF k < Len(DevNames) THEN DevNames[k] \in ds ELSE \E d \in ds : ~Known(d)
+                sum[k \in 0 .. Len(DevNames)] == IF k = 0 THEN 0 ELSE sum[k - 1] + (IF has(k) THEN Pow2(k - 1) ELSE 0)
+            IN sum[Len(DevNames)]
+Done == (l = Len(Traces[t]) + 1) => PrintT(<<"DEVS", t, Mask(st.devs)>>)
 Verdicts == \A j \in 1 .. NT :
    IF TLCGet(j) = Len(Traces[j]) + 1 THEN PrintT(<<"ACCEPT", j>>)
    ELSE PrintT(<<"REJECT", j, TLCGet(j), TLCGet(NT + j)>>)
